@@ -60,7 +60,16 @@ def _cases(draw):
             c = {"type": f"select_one_external {ln}", "name": g.name(), "label": g.text("L")}
             if g.p("_", 0.85):
                 c["choice_filter"] = " and ".join(f"{cn}=${{{g.pick(g.names)}}}" if g.names and g.p("_", 0.7) else f"{cn}='tx'" for cn in cols)
-            form["nodes"].append({"k": "q", "c": c})
+            conts = [n for n, _ in model.walk(form["nodes"]) if n["k"] in ("g", "r") and not n["c"].get("appearance", "").startswith("table-list")]
+            if conts and g.p("_", 0.5):
+                home = g.pick(conts)
+                # inside a repeat the filter should be able to name a question of the same repeat
+                inner = [ch["c"]["name"] for ch in home["ch"] if ch["k"] == "q" and ch["c"].get("type", "").split(" ")[0] in ("text", "integer", "select_one")]
+                if inner and "choice_filter" in c and g.p("_", 0.7):
+                    c["choice_filter"] = f"{cols[0]}=${{{g.pick(inner)}}}"
+                home["ch"].append({"k": "q", "c": c})
+            else:
+                form["nodes"].append({"k": "q", "c": c})
     # lists whose rows are not contiguous on the sheet
     if len(g.lists) >= 2 and g.p("_", 0.25):
         form["choices_interleave"] = True
@@ -81,7 +90,11 @@ def _cases(draw):
             lst = next((x for x in g.lists if x["name"] == t[1]), None)
             if lst and not any(r.get("name") == "other" for r in lst["rows"]) and len(lst["rows"]) >= 2:
                 lst["rows"].insert(g.integer(0, len(lst["rows"]) - 1), {"name": "other", "label": "My other"})
-    return {"form": form}
+    case = {"form": form}
+    if g.p("_", 0.2):
+        case["no_headers"] = True   # the documented dict input may come without *_header keys: headers are the union of the row keys
+        form.pop("ext_header", None)
+    return case
 
 
 def strategy(tier):
@@ -91,7 +104,7 @@ def strategy(tier):
 def evaluate(case) -> Outcome:
     out = Outcome()
     form = case["form"]
-    status, res = common.run_form(form)
+    status, res = common.run_form(form, with_headers=not case.get("no_headers"))
     if status == "crash":
         out.label("outcome:crash:" + crash_sig(res))
         return out
@@ -361,6 +374,17 @@ def _check_nodeset(out, n, nodeset, want_base, filt, rnd, names, inst, ctx, tag)
     toks = refs.match_substituted(filt, rest[1:-1])
     if toks is None:
         out.fail("C09.select", f"{tag}:filter-differs", f"{n.path}: predicate {rest[1:-1]!r} is not choice_filter {filt!r}")
+        return
+    # "its own choice filter": inside the item[...] predicate a relative path is read against the list item unless it is anchored
+    # with current(), so every substituted reference must reach its question from *this* select
+    _, rr = refs.split_source(filt)
+    for tok, (ls, name) in zip(toks, rr):
+        tgt = names.get(name)
+        if not tgt or len(tgt) != 1:
+            continue
+        bad = refs.check_token(tok, inst, ctx, tgt[0].path, last_saved=ls, must_relative=refs.must_be_relative(n, tgt[0]) or None, need_current=True)
+        if bad:
+            out.fail("C09.select", f"{tag}:filter-ref:{bad[0]}", f"{n.path}: choice_filter {filt!r}: {bad[1]}")
 
 
 def _list_diff(exp, act):
